@@ -45,7 +45,7 @@ def run(tier: str) -> int:
     stats = {}
     with common.Lock():
         meta = semprop.regenerate(broken)
-        b2, binfo = common.build_property("C01", ["model/Guards.vo", "sem/Diff.vo"])
+        b2, binfo = common.build_property("C01", ["model/Guards.vo", "sem/Diff.vo", "proofs/SortSound.vo", "proofs/TmpDef.vo"])
         broken += b2
         model_ok = not any(x.kind in ("proof", "translator", "forbidden") for x in broken)
         t0 = time.time()
